@@ -236,8 +236,15 @@ def statistics(ctx, rng, nops=8):
     stat = {"mean_ops": sum(n_ops) / len(n_ops), "mean_gap_ticks": sum(gaps) / len(gaps), "n_events": len(gaps) + 1,
             "class_freq": {k: v / tot for k, v in prios.items()}}
     ctx.coverage["statistical_tests"] = stat
-    # int() truncation lowers the mean by about 0.5
-    if abs(stat["mean_ops"] - (nops - 0.5)) > 5 * (nops / 4) / math.sqrt(len(n_ops)) + 0.1:
+    # int() truncation lowers the mean by about 0.5; for small num_operators the floor at one operator matters: E max(1, floor(N(n, n/4))) computed exactly
+    def phi(x):
+        return 0.5 * (1 + math.erf(x / math.sqrt(2)))
+    sd = nops / 4
+    expect = phi((2 - nops) / sd) + sum(k * (phi((k + 1 - nops) / sd) - phi((k - nops) / sd)) for k in range(2, 12 * nops + 10))
+    if nops <= 4 and abs(stat["mean_ops"] - expect) > 5 * sd / math.sqrt(len(n_ops)) + 0.02:
+        viol(ctx, "stat-num-operators", f"mean operator count {stat['mean_ops']:.3f} is not the {expect:.3f} that num_operators = {nops} gives "
+                                        f"(chains of max(1, floor(N({nops}, {sd})))) operators)", {"params": params})
+    if abs(stat["mean_ops"] - (nops - 0.5)) > 5 * (nops / 4) / math.sqrt(len(n_ops)) + 0.1 and nops > 4:
         viol(ctx, "stat-num-operators", f"mean operator count {stat['mean_ops']:.2f} is not about num_operators = {nops}", {"params": params})
     if abs(stat["mean_gap_ticks"] - (200 - 0.5 + 1)) > 5 * 50 / math.sqrt(len(gaps)) + 1:
         viol(ctx, "stat-gap", f"mean gap {stat['mean_gap_ticks']:.1f} ticks is not about waiting_seconds_mean = 200 ticks", {"params": params})
@@ -291,6 +298,7 @@ def run(ctx):
         ratio_effect(ctx, rng)
     statistics(ctx, rng)
     statistics(ctx, rng, nops=24)
+    statistics(ctx, rng, nops=2)
     ctx.coverage["rule"] = ("generator runs over random parameter sets with every draw recorded by a proxy for gen.rng and replayed into the Lean model; "
                             "structure clauses checked on every emitted pipeline; coupling test of cpu_io_ratio with paired seeds; "
                             "averages sampled (labelled statistical_tests, not proofs); non-trivial = a run with at least two arrival events")
